@@ -16,9 +16,9 @@ namespace { const int NH = 5; }
 void pbt_generate(Rng& r, int size, Case& c) {
   c.params["kind"] = (long)r.below(5);
   int n = 2 + (int)r.below((uint64_t)size + 1);
-  static const char* names[] = {"make", "copy", "assign", "swap", "modify", "destroy", "raw"};
-  static const int w[] = {8, 22, 22, 12, 18, 14, 4};
-  for (int k = 0; k < n; ++k) c.add(names[r.weighted(w, 7)], (long)r.below(NH), (long)r.below(NH), (long)r.below(100), (long)r.below(2));
+  static const char* names[] = {"make", "copy", "assign", "swap", "modify", "destroy", "raw", "clear"};
+  static const int w[] = {8, 22, 22, 12, 18, 14, 4, 8};
+  for (int k = 0; k < n; ++k) c.add(names[r.weighted(w, 8)], (long)r.below(NH), (long)r.below(NH), (long)r.below(100), (long)r.below(2));
 }
 
 bool pbt_nontrivial(const Ctx& ctx) { return ctx.has("swap_or_assign_between_payloads_then_destroy"); }
@@ -66,6 +66,7 @@ void pbt_run(const Case& cs, Ctx& ctx) {
     }
     else if (nm == "modify") { if (!h[a]) { ctx.count("skipped"); continue; } bool shared = false; for (int i = 0; i < NH; ++i) if (i != a && h[i] && pay[i] == pay[a]) shared = true; if (shared) ctx.label("modify_while_shared"); k->modify(h[a], a, (int)op.a[2], m[a]); pay[a] = nextPay++; }
     else if (nm == "destroy") { if (!h[a]) { ctx.count("skipped"); continue; } if (recentMix >= 0) ctx.label("swap_or_assign_between_payloads_then_destroy"); k->destroy(h[a]); h[a] = nullptr; pay[a] = -1; }
+    else if (nm == "clear") { if (!h[a]) { ctx.count("skipped"); continue; } k->clear(h[a], m[a]); pay[a] = nextPay++; ctx.label("clear"); }
     else if (nm == "raw") {
       // RefCount::Ptr: assignment of a raw pointer / null
       if (kind != 3 || !h[a]) { ctx.count("skipped"); continue; }
